@@ -28,37 +28,41 @@ PROPERTY_FILE = 'C18/Property.v'
 LEVEL = 'proof'
 ALLOWED_AXIOMS = ()
 TRUSTED_BASE = [
-    'C18/Model.v is hand-written from cflib/cpx/__init__.py (CPXPacket, CPXRouter), cflib/cpx/transports.py '
-    '(SocketTransport), cflib/crtp/tcpdriver.py and serialdriver.py (send_packet, _CPXReceiveThread.run) and '
-    'CRTPPacket.__init__; tied on every run by differential evaluation against the real classes over a scripted '
-    'in-memory socket (exhaustive for the header codec and for all fragmentations of short streams)',
-    'the socket model: recv(n) returns a non-empty prefix of at most n pending bytes; a list of pieces covers every '
-    'such behaviour (the pieces a run returned reproduce the run); socket.send is assumed to take the whole buffer',
+    'C18/Model.v and C18/Uart.v are hand-written from cflib/cpx/__init__.py (CPXPacket, CPXRouter, CPX), cflib/cpx/transports.py '
+    '(SocketTransport, UARTTransport), cflib/crtp/tcpdriver.py and serialdriver.py (send_packet, _CPXReceiveThread.run) and '
+    'CRTPPacket.__init__; tied on every run by differential evaluation against the real classes over a scripted in-memory '
+    'socket / serial port (exhaustive for the header codec and for all fragmentations of short streams; the CPX facade with '
+    'its router running as a real thread behind a deterministic gate)',
+    'the socket model: recv(n) returns a non-empty prefix of at most n pending bytes (a list of pieces covers every such '
+    'behaviour: the pieces a run returned reproduce the run); send(buf) takes between 1 and len(buf) bytes; sendall loops '
+    'over send (CPython socket semantics)',
     'the remote end (firmware) is represented by the same decoder/encoder as the host side',
 ]
 ASSUMPTIONS = [
     "struct.pack('H', n) is little-endian on this platform (native order); checked by the tie and by the oracle's "
     'independent decoder on every run',
-    'packets are used as constructed: CPXPacket.length equals len(data) (the attribute is not refreshed when data is '
-    'assigned later; writePacket uses it) — theorem hypothesis wf_cpx',
-    'socket.send transmits the whole frame (the code does not use sendall); recv never returns b"" (a closed '
-    'connection makes _readData spin forever: outside the property, not modelled as progress)',
-    'router thread and receiver threads interleave at the granularity of whole run() iterations / receivePacket '
-    'calls (queue.Queue operations are atomic)',
+    'recv never returns b"" (a closed connection makes _readData spin forever: a liveness defect outside the property, '
+    'recorded as an observation in design.d/C18.md)',
+    'router thread and other threads interleave at the granularity of whole run() iterations / receivePacket / sendPacket '
+    'calls (queue.Queue operations are atomic; the gate lets exactly one thread move at a time)',
+    'the model describes the code with fixes/F18a.patch (sendall), F18b.patch (prefix from len(data)) and F18c.patch (UART '
+    'size check before the lock) applied',
 ]
 PROVED = ('Over the model: CPXPacket encode/decode round trip for all 4x4x7x2 attribute combinations and every '
           'payload; unsupported versions rejected (packet level, byte level, and inside a stream with the reader '
-          'staying aligned); for every list of packets and every fragmentation of its byte stream readPacket returns '
-          'exactly that list and then end-of-stream; for arbitrary bytes the result is independent of the '
-          'fragmentation; the router delivers, per function, exactly the packets that arrived while its queue '
-          'existed, in arrival order, only to receivers of that function, for every interleaving; router on the real '
-          'transport equals router on the packet list; CRTP header and payload unchanged through send_packet and the '
-          'receive thread (header modulo the two reserved bits CRTPPacket forces to 1).')
-NOT_PROVED = ('UARTTransport framing (0xFF/size/XOR checksum, CTS flow control) is not modelled; the serial driver is '
-              'covered for its tunnelling code (send_packet, _CPXReceiveThread) only. Behaviour on a closed socket '
-              '(recv returning b""), partial socket.send, packets whose data was reassigned after construction, and '
-              'byte-code level interleavings are outside the model. Packets of a function nobody has asked for yet are '
-              'dropped by the router: stated in the theorem (accepted), not a preservation claim.')
+          'staying aligned); for every list of packets and every fragmentation of its byte stream (also against a socket '
+          'returning arbitrary non-empty prefixes) readPacket returns exactly that list and then end-of-stream; for arbitrary '
+          'bytes the result is independent of the fragmentation; whatever part of the buffer each send call takes the whole '
+          'frame reaches the stream; packets whose data was assigned after construction are framed by their data; the router '
+          'delivers, per function, exactly the packets that arrived while its queue existed, in arrival order, only to '
+          'receivers of that function, for every interleaving; router on the real transport and the CPX facade (send, '
+          'receive, makeTransaction, close) equal the router on the packet list; CRTP header and payload unchanged through '
+          'send_packet and the receive thread (header modulo the two reserved bits CRTPPacket forces to 1); UART framing '
+          'round trip, noise skipping, oversize refusal leaving the link usable.')
+NOT_PROVED = ('UARTTransport.connect handshake; behaviour on a closed socket (recv returning b""); a UART checksum mismatch is '
+              'only printed by the code (packet still delivered) - modelled, not a preservation claim; byte-code level '
+              'interleavings. Packets of a function nobody has asked for yet are dropped by the router: stated in the theorem '
+              '(accepted), not a preservation claim.')
 
 HEADER = ('From CF Require Import Common.Bytes Common.Digest C18.Model.\nOpen Scope Z_scope.\n'
           'Fixpoint zr_ (n : nat) (lo : Z) : list Z := match n with O => [] | S k => lo :: zr_ k (lo + 1) end.\n'
@@ -453,7 +457,7 @@ def impl_cpx_session(chunks, takes, events):
     extra_puts = {}
 
     def wait_idle():
-        if not gate.idle.wait(10):
+        if not gate.idle.wait(3):
             raise AssertionError('router thread did not come back to the gate')
 
     def pump():
@@ -500,9 +504,17 @@ def impl_cpx_session(chunks, takes, events):
                         box['e'] = ex
                 th = threading.Thread(target=run, daemon=True)
                 th.start()
-                # until the call has sent its request and created its queue (or has failed)
-                while th.is_alive() and not (f in router._rxQueues and len(sock.sent) > n0):
+                # until the call has sent its request and created its queue (or has failed); bounded, so that a broken
+                # implementation shows up as an observation, not as a hanging check
+                deadline = time.time() + 1.5
+                while th.is_alive() and not (f in router._rxQueues and len(sock.sent) > n0) and time.time() < deadline:
                     time.sleep(0.0002)
+                if th.is_alive() and not (f in router._rxQueues and len(sock.sent) > n0):
+                    for q in list(router._rxQueues.values()):
+                        q.put(None)
+                    th.join(1.5)
+                    obs.append([22, 98, sorted(router._rxQueues.keys())[0] if router._rxQueues else -1])
+                    break
                 for _ in range(e[2]):
                     pump()
                 if th.is_alive() and 'r' not in box:
@@ -512,12 +524,14 @@ def impl_cpx_session(chunks, takes, events):
                         # nothing for it: the call is blocked in queue.get() for ever -> release it with a marker
                         q.put(None)
                         extra_puts[f] = extra_puts.get(f, 0) + 1
-                        th.join(10)
-                        assert box.get('r', 0) is None
+                        th.join(1.5)
                         b = sent_since(n0)
-                        obs.append([22, 0, len(b)] + list(b) + [0])
+                        obs.append([22, 0, len(b)] + list(b) + ([0] if box.get('r', 0) is None else [96]))
                         continue
-                th.join(10)
+                th.join(1.5)
+                if th.is_alive():
+                    obs.append([22, 97])
+                    break
                 if 'e' in box:
                     obs.append([22, 1, _exc_code(box['e']), 0])
                 else:
